@@ -3,10 +3,17 @@
 theorems : lean/GoldModel/Props/C09.lean — takeUntil_split, reslice_ends_at_terminator,
            top_unfold, post_independent, takeUntil_unterminated, reslice_unterminated_keeps_all,
            missing_end_reported; negation witness takeUntilOld_drops_last for the pinned take_until.
+           lean/GoldModel/Props/C09Prog.lean — the property for whole PROGRAMS: locality_partial(_memo)
+           (well-formed pre ++ [method] ++ post, any terminator-free replacement body that does not continue
+           the header: the other declarations' subtrees are those of the unmodified program, the diagnostics
+           are those of the statement parser on the body alone), outline_unchanged, diags_end_in_body,
+           truncated / truncated_wellformed; negation witness locality_full_fails (replayed below).
 tie      : `parse` correspondence on every original / mutated / truncated file.
 oracle   : on the implementation: the other declarations' subtrees, outline entries and
            diagnostics are unchanged, new diagnostics lie within the method's lines; a truncated
-           last method is reported, keeps all statements, earlier declarations untouched.
+           last method is reported, keeps all statements, earlier declarations untouched; and (the
+           diagnostics clause of locality_partial) when the body does not continue the header, the
+           file's diagnostics are exactly those of the real statement parser on the body alone.
 """
 from .. import core, sexp
 from ..gen import parsecases, prog, toks
@@ -92,13 +99,17 @@ def run(ctx):
         "hand-written parser model tied by the `parse` correspondence; Python evaluation of the isolation rule on dumped trees",
     ]
     ctx.assumptions += [
-        "the theorems are about the slice mechanism and the fold structure of the top level (bodies that reach the slice); that the header of an intact "
-        "method consumes exactly the header tokens, that declarations BEFORE the method do not look into it, and that new diagnostics lie inside the "
-        "method are established by correspondence + oracle only (T5/T6 not proved)",
+        "Props/C09.lean is about the slice mechanism and the fold structure of the top level; Props/C09Prog.lean composes them with the declaration "
+        "round trip (C06Prog) into the property for whole programs: for WELL-FORMED surrounding declarations (the abstract syntax of Model/Prog.lean: "
+        "no comments, no OQL) and replacement bodies that do not continue the header (decidable guard; without it the statement is false, "
+        "locality_full_fails). Proved there: the header consumes exactly the header tokens, the declarations before and after keep their subtrees, "
+        "the diagnostics are those of the body parsed alone and (T5) end no later than the body's last line. NOT proved: a lower bound for the "
+        "positions of those diagnostics, and surrounding declarations outside the abstract syntax — correspondence + oracle only",
     ]
     if ctx.replay:
         return replay(ctx)
     ctx.prove("GoldModel.Props.C09")
+    ctx.prove("GoldModel.Props.C09Prog")
     if not ctx.build_harness():
         return ctx.finish(rule=RULE)
     q = ctx.tier == "quick"
@@ -157,6 +168,13 @@ def run(ctx):
             t2[gi] = list(h)
             pairs.append((o2, t2, gi, None, h))
             ctx.count("truncated right after the header")
+    # the negation witness of Props/C09Prog.lean (`locality_full_fails`: proc P / forward [ / endproc / const c = 1), replayed on
+    # the real parser: the correspondence compares it with the model, the oracle files it under the known finding
+    wh = [T("Proc", "proc"), T("Identifier", "P")]
+    wc = [T("Const", "const"), T("Identifier", "c"), T("Equals", "="), T("NumericLiteral", "1")]
+    wb = [T("Forward", "forward"), T("OSqrBracket")]
+    pairs.append(([wh + [T("EndProc", "endproc")], wc], [wh + wb + [T("EndProc", "endproc")], wc], 0, wb, wh))
+    ctx.count("negation witness of locality_full_fails replayed")
     lines = []
     for o, m, gi, b, h in pairs:
         lines.append(layout(o)[0])
@@ -202,8 +220,52 @@ def run(ctx):
             if body_of(mo) != body_of(mt):
                 ctx.oracle_fail("C09:truncated-loses-statement", "a method without end keyword does not keep all of its statements",
                                 dict(case, statements_original=body_of(mo)[-3:], statements_truncated=body_of(mt)[-3:]))
+    body_alone(ctx, pairs, lines, impl)
     ctx.samples = [{"case": lines[i][:400], "diagnostics": sexp.field(impl[i], "D")} for i in (1, len(lines) // 2 | 1, len(lines) - 1)]
     return ctx.finish(rule=RULE, extra={"exhaustive": True, "exhaustive_space": "replacement bodies up to length %d over a 16-kind alphabet (minus terminators, plus forward, [ and func)" % (2 if q else 3)})
+
+
+MODS = ("Private", "Protected", "Final", "Override", "External", "Forward")
+
+
+def continues_header(h, b):
+    """the guard of `locality_partial` (Hdr.cont / noContB in Lemmas/ProgLocality.lean), evaluated on the generator's header and body"""
+    first = next((t[0] for t in b if t[0] != "Comment"), None)
+    if first is None:
+        return False
+    bare_proc = h[0][0] == "Proc" and not any(t[0] == "OBracket" for t in h)
+    return first in MODS or (bare_proc and first in ("OBracket", "Pound"))
+
+
+def body_alone(ctx, pairs, lines, impl):
+    """the diagnostics clause of `locality_partial`, evaluated on the implementation: when the replacement body does not continue the
+    header, the diagnostics of the whole mutated file (the original has none) are EXACTLY those the real statement parser reports when it
+    is given the replacement body alone (harness mode `body`: clear_cache + parse_repeat_w_context(parse_statement_v2), real context)"""
+    want = []
+    for k, (o, m, gi, b, h) in enumerate(pairs):
+        if b is None or not b or continues_header(h, b):
+            continue
+        toks_m = lines[2 * k + 1].split(" ")[1:]
+        off = sum(len(g) for g in m[:gi]) + len(h)
+        want.append((k, "body " + " ".join(toks_m[off:off + len(b)])))
+        ctx.count("diagnostics of the file vs the body alone")
+    seen = {}
+    for k, l in want:
+        seen.setdefault(l, len(seen))
+    blines = sorted(seen, key=seen.get)
+    bout = ctx.run_harness("body", blines, timeout=900)
+    for k, l in want:
+        a = bout[seen[l]]
+        md = sexp.field(a, "MD")
+        d = sexp.field(impl[2 * k + 1], "D")
+        if md is None or d is None:
+            continue        # crashes are reported by the main loop
+        if md != d:
+            o, m, gi, b, h = pairs[k]
+            ctx.oracle_fail("C09:diagnostics-not-those-of-the-body",
+                            "the diagnostics of the file with the replaced body are not the diagnostics of the statement parser on that body alone",
+                            {"mode": "parse", "case": lines[2 * k + 1], "original": lines[2 * k], "method_index": gi,
+                             "body": " ".join(t[0] for t in b), "body_case": l, "file_diagnostics": d, "body_diagnostics": md})
 
 
 def replay(ctx):
